@@ -224,6 +224,8 @@ class EVPN(NLRI):
             if len_ld_value % 2 != 0:
                 ld_value_hex = '0' + ld_value_hex
             ld_value_hex = binascii.a2b_hex(ld_value_hex)
+            # the local discriminator is a 3-octet field
+            ld_value_hex = b'\x00' * (3 - len(ld_value_hex)) + ld_value_hex
             esi_data_hex = b'\x03' + sys_mac_hex + ld_value_hex
 
         elif esi_type == bgp_cons.ESI_BGPNLRI_EVPN_TYPE_4:
